@@ -63,9 +63,34 @@ def check(reg, tier):
                "numeric replay grid (limits and floating point are outside the contracts)")
 
 
+def _squares_only(reg, name):
+    """Models whose Fq leaves the subset of _structure (vector parameters, shell loops of symbolic length): the
+    clause 'the F^2 output is the square of the amplitude' needs nothing from those loops, so they are taken with the
+    trivial contract (cvc.HavocLoop: whatever they modify is arbitrary afterwards) and the vector parameters are
+    arbitrary functions of the index."""
+    me = ModelExec(name, vectors=True, havoc_loops=True)
+    where = "models/%s: Fq" % name
+    fn = me.tu.functions["Fq"]
+    reg.function_under_contract("generated[%s]:Fq" % name, "sasmodels/models/%s.c" % name,
+                                fn["loc"].get("presumedLine", 0), 0, me.tu.func_text(fn))
+    F1, F2, defs = me.run_1d()
+    if F1 is None or F2 is None:
+        raise OutsideSubset("no amplitude output")
+    reg.assume("models/%s: loops of symbolic length in Fq and its helpers enter through the trivial contract (modified "
+               "variables arbitrary afterwards); vector parameters are arbitrary functions of the index" % name)
+    reg.prove("%s.structure.%s.F2_is_F1_squared" % (PROP, name), [], F2 == F1 * F1, function=where, engine="cvc",
+              poly=trig_pairs([F1, F2]), nl=True, replay=lambda m=None: replay_amplitudes(name))
+
+
 def _job(sub, name):
     try:
-        _structure(sub, name)
+        try:
+            _structure(sub, name)
+        except OutsideSubset as first:
+            try:
+                _squares_only(sub, name)
+            except OutsideSubset:
+                raise first
     except OutsideSubset as exc:
         sub.passed("%s.structure.%s.numeric_stand_in" % (PROP, name), function="models/%s: Fq" % name,
                    engine="cvc", kind="bounded", backend="numeric replay",
